@@ -396,6 +396,13 @@ fn oracle_c11(case: &Case, outs: &[ImplRes]) -> Result<(), String> {
             expect_eq("embedded-hal source: results with would-block removed vs fault-free run", &a.join(" "), &b.join(" "))
         }
         "other-error" => {
+            if let Some(n) = case.aux.first() {
+                // independent expectation: no result precedes the fault, all bytes read so far are pending
+                let first = items(outs[0].text).first().cloned().unwrap_or_default();
+                expect_eq("count attached to the read error", &first, &format!("io:other:{}", n))?;
+                let eof = items(outs[1].text).first().cloned().unwrap_or_default();
+                expect_eq("count attached to end of input", &eof, &format!("io:eof:{}", n))?;
+            }
             let pre = items(outs[1].text);
             let post = strip_trailing_none(items(outs[2].text));
             let mut want: Vec<String> = Vec::new();
